@@ -15,6 +15,9 @@ CLAIMED = {
  "C02": ("algebraic normal form of every comparison against TotalVotingPower() + guard-dominance on tally/majority stores + key-covers-equality field sets",
          "Decides that every quorum comparison in the module has the strict >2/3 form, that power is tallied once per validator and only after verification, that maj23 is set only on the crossing, that VerifyCommit/MakeCommit obey their guards, and that the tally map key covers block-id equality; universal over executions of these functions, not a proof about vote histories.",
          "DESIGN.md §4 C02"),
+ "C13": ("guard-dominance on part/proof/body checks + encoder/decoder sibling field-flow agreement + memo-key effect-set coverage + constant-table check of Merkle prefixes",
+         "Decides that parts enter a part set only behind index, slot, proof and index-binding guards; that proof verification, Block.ValidateBasic and the proposal-block adoption path are complete checklists; that the header encoder covers every field and all hand-written codecs agree field by field; and that the validation memo key covers what the block hash does not. Does not decide byte-identical reassembly for arbitrary arrival orders.",
+         "DESIGN.md §4 C13"),
  "C03": ("guard-dominance + typestate constants + once-per-path ordering + who-may-sign call-site sets",
          "Decides, for every path through the consensus step functions, that signing happens only from the state machine, at most once per step, behind the step guards, the polka guard and the lock guard, and that validateBlock is a complete checklist; does not decide what the vote sets contain at run time.",
          "DESIGN.md §4 C03"),
